@@ -440,6 +440,12 @@ class Engine(Exec):
             else:
                 result = fresh('ret_' + qual.split('.')[-1], {'int': 'int', 'float': 'real', 'bool': 'bool'}[c.returns])
             post_st.env['result'] = result
+        for gn, (grank, gshape) in getattr(c, 'ghost_out', {}).items():
+            V._arr_counter[0] += 1
+            shp = [self.ev_clause_val(x, callee_st, cfr) for x in gshape]
+            g = SpecArr(z3.Const('%s!o%d' % (gn, V._arr_counter[0]), V.arr_sort(grank, REAL)), shp, REAL)
+            post_st.env[gn] = g
+            st.env[gn] = g
         cfr.spec_only = True
         selfobj = env.get('self')
         for an, ex in c.sets.items():
@@ -840,6 +846,9 @@ class Engine(Exec):
                 st.env[n] = fresh(n, 'bool')
             elif isinstance(v, Arr):
                 pass
+            elif isinstance(v, SpecArr):
+                V._arr_counter[0] += 1
+                st.env[n] = SpecArr(z3.Const('%s!g%d' % (n, V._arr_counter[0]), V.arr_sort(v.rank, v.elem)), v.shape, v.elem)
             elif v is None:
                 pass
             else:
@@ -903,6 +912,7 @@ class Engine(Exec):
                 return self.unroll(s, st, fr, lo, hi, bind)
             raise OutOfReach('loop with symbolic trip count and no invariant: %s in %s' % (key, fr.fname))
         out = []
+        self.bind_ghost(lc, st, fr)
         # path A: empty range
         c_enter = compare('Lt', lo, hi)
         if not (isinstance(c_enter, bool) and c_enter):
@@ -919,7 +929,6 @@ class Engine(Exec):
                 return out
         # entry: invariant with index = lo
         st.env[iname] = lo
-        self.bind_ghost(lc, st, fr)
         self.check_inv(lc, st, fr, s, 'loop_inv_init')
         names, arr_objs = self.havoc_set(s.body, st, fr)
         names = set(names) | set(lc.get('ghost_update', {}))
@@ -1004,7 +1013,7 @@ class Engine(Exec):
         self.bind_ghost(lc, st, fr)
         self.check_inv(lc, st, fr, s, 'loop_inv_init')
         names, arr_objs = self.havoc_set(s.body, st, fr)
-        names = set(names) | set(lc.get('ghost_update', {}))
+        names = set(names) | set(lc.get('ghost_update', {})) | set(lc.get('ghost_iter', {}))
         sB = st.fork()
         self.do_havoc(sB, names, arr_objs)
         self.assume_inv(lc, sB, fr)
@@ -1014,6 +1023,13 @@ class Engine(Exec):
 
         def body(b0):
             d0 = None
+            for gn, gex in lc.get('ghost_iter', {}).items():
+                fr.spec_only = True
+                gv = self.ev_clause_val(gex, b0, fr)
+                fr.spec_only = False
+                if isinstance(gv, Arr):
+                    gv = SpecArr(b0.heap[gv.aid], gv.shape, gv.elem)
+                b0.env[gn] = gv
             if decby is not None:
                 # real-valued variant: non-negative while the loop runs, and each iteration lowers it by at
                 # least a positive loop-invariant amount
